@@ -625,7 +625,7 @@ theorem getItems_never_misaligned (o : Obj) (items : List Item) (hwf : WF o = tr
         exact check_wf_not_runtime _ (getItems_result_wf o items sels _ _ hwf (by rw [← hens]; exact hn) hr)
 
 
-/-! ### linear ensemble axes: the coordinates of the selected items are carried along (after fix 85926b4f…) -/
+/-! ### linear ensemble axes: forward slices carry the coordinates of the selected items (4dde25c3) -/
 
 theorem pyRange_getD (e st : Int) (hst : st > 0) : (fuel : Nat) → (s : Int) → (k : Nat) →
     k < (pyRange s e st fuel).length → (pyRange s e st fuel).getD k 0 = s + k * st
@@ -680,33 +680,7 @@ theorem sliceIndices_getD (a b c : Option Int) (n : Nat) (idx : List Nat) (hstep
       omega
     rw [Int.toNat_of_nonneg hv, hp]
 
-/-- SLICES OF LINEAR AXES CARRY THE COORDINATES OF THE SELECTED ITEMS.  For any slice with positive step (any start and
-stop, negative or out of range), the result axis is linear and its k-th coordinate is the coordinate of the k-th selected
-item of the source axis. -/
-theorem linear_forward_slice_coordinates (t : Int) (off samp : Rat) (a b c : Option Int) (n : Nat) (idx : List Nat)
-    (hstep : c.getD 1 ≥ 1) (h : sliceIndices a b c n = .ok idx) (k : Nat) (hk : k < idx.length) :
-    ∃ off' samp', axisGet (.linear t off samp) idx (some (sliceStart a c n, c.getD 1)) = .linear t off' samp' ∧
-      coord off' samp' k = coord off samp (idx.getD k 0) := by
-  refine ⟨off + (sliceStart a c n) * samp, samp * (c.getD 1), by simp [axisGet], ?_⟩
-  have hi := sliceIndices_getD a b c n idx hstep h k hk
-  simp only [coord]
-  have : ((idx.getD k 0 : Nat) : Rat) = ((sliceStart a c n + k * c.getD 1 : Int) : Rat) := by
-    rw [← hi]; simp
-  rw [this]
-  push_cast
-  ring
-
-/-- irregular index lists: the result is the ordinal axis whose k-th value is the coordinate of the k-th selected item -/
-theorem linear_list_coordinates (t : Int) (off samp : Rat) (idx : List Nat) (k : Nat) (hk : k < idx.length) :
-    ∃ vals, axisGet (.linear t off samp) idx none = .ordinalQ t vals ∧ vals.length = idx.length ∧
-      vals.getD k 0 = coord off samp (idx.getD k 0) := by
-  refine ⟨idx.map fun (i : Nat) => off + ((i : Int) : Rat) * samp, by simp [axisGet], by simp, ?_⟩
-  rw [List.getD_eq_getElem?_getD, List.getElem?_map, List.getD_eq_getElem?_getD]
-  have : idx[k]? = some idx[k] := List.getElem?_eq_getElem hk
-  simp [this, coord]
-
-
-/-! ### linear axes keep their type under backward slices and evenly spaced index lists (follow-up fix) -/
+/-! ### auxiliary facts about ranges and evenly spaced lists -/
 
 /-- every element of a backward range lies above its stop -/
 theorem pyRange_neg_gt (e st : Int) (hst : st < 0) : (fuel : Nat) → (s : Int) → ∀ v ∈ pyRange s e st fuel, v > e
@@ -772,25 +746,6 @@ theorem sliceIndices_getD_backward (a b c : Option Int) (n : Nat) (idx : List Na
         split at hgt <;> (try split at hgt) <;> omega
     rw [Int.toNat_of_nonneg hv, hp]
 
-/-- SLICES OF LINEAR AXES, ANY DIRECTION.  For a slice with any non-zero step whose normalised start is an item of the axis, the
-result axis is linear (sampling multiplied by the step, negative for a backward slice) and its k-th coordinate is the coordinate
-of the k-th selected item: a reversed or subsampled scan stays a scan with the right coordinates. -/
-theorem linear_slice_coordinates (t : Int) (off samp : Rat) (a b c : Option Int) (n : Nat) (idx : List Nat)
-    (hstep : c.getD 1 ≠ 0) (h : sliceIndices a b c n = .ok idx) (k : Nat) (hk : k < idx.length) :
-    ∃ off' samp', axisGet (.linear t off samp) idx (some (sliceStart a c n, c.getD 1)) = .linear t off' samp' ∧
-      coord off' samp' k = coord off samp (idx.getD k 0) := by
-  refine ⟨off + (sliceStart a c n) * samp, samp * (c.getD 1), by simp [axisGet], ?_⟩
-  have hi : ((idx.getD k 0 : Nat) : Int) = sliceStart a c n + k * c.getD 1 := by
-    by_cases hpos : c.getD 1 ≥ 1
-    · exact sliceIndices_getD a b c n idx hpos h k hk
-    · exact sliceIndices_getD_backward a b c n idx (by omega) h k hk
-  simp only [coord]
-  have : ((idx.getD k 0 : Nat) : Rat) = ((sliceStart a c n + k * c.getD 1 : Int) : Rat) := by
-    rw [← hi]; simp
-  rw [this]
-  push_cast
-  ring
-
 theorem evenly_spec : (l : List Nat) → (step : Int) → evenly l step = true →
     ∀ k, k < l.length → ((l.getD k 0 : Nat) : Int) = ((l.headD 0 : Nat) : Int) + k * step
   | [], _, _, k, hk => by simp at hk
@@ -826,16 +781,68 @@ theorem regularList_spec (idx : List Nat) (first step : Int) (h : regularList id
     · simp at h
 
 
-/-- evenly spaced index lists (`idx[k] = first + k·step`) keep the axis linear with the coordinates of the selected items -/
-theorem linear_regular_list_coordinates (t : Int) (off samp : Rat) (idx : List Nat) (first step : Int) (k : Nat)
-    (hreg : ((idx.getD k 0 : Nat) : Int) = first + k * step) :
-    ∃ off' samp', axisGet (.linear t off samp) idx (some (first, step)) = .linear t off' samp' ∧
-      coord off' samp' k = coord off samp (idx.getD k 0) := by
-  refine ⟨off + first * samp, samp * step, by simp [axisGet], ?_⟩
-  simp only [coord]
-  have : ((idx.getD k 0 : Nat) : Rat) = ((first + k * step : Int) : Rat) := by rw [← hreg]; simp
-  rw [this]; push_cast; ring
+/-! ### linear ensemble axes: what holds and what is recorded -/
 
+theorem sliceStart_of_inrange (a c : Option Int) (n : Nat) (hstep : c.getD 1 ≥ 1) (h0 : 0 ≤ a.getD 0) (hn : a.getD 0 ≤ n) :
+    sliceStart a c n = a.getD 0 := by
+  unfold sliceStart
+  have : ¬ (c.getD 1 < 0) := by omega
+  cases a with
+  | none => simp [this]
+  | some x =>
+    have h0' : 0 ≤ x := by simpa using h0
+    have hn' : x ≤ (n : Int) := by simpa using hn
+    have e1 : ¬ (x < 0) := by omega
+    simp only [this, decide_false, Bool.false_eq_true, if_false, e1, Option.getD_some]
+    split
+    · omega
+    · rfl
+
+/-- FORWARD SLICES of a linear axis (start written non-negative and inside the axis, step ≥ 1): the result is the linear axis
+whose k-th coordinate is the coordinate of the k-th selected item. -/
+theorem linear_forward_slice_coordinates (t : Int) (off samp : Rat) (a b c : Option Int) (n : Nat) (idx : List Nat)
+    (hstep : c.getD 1 ≥ 1) (h0 : 0 ≤ a.getD 0) (hn : a.getD 0 ≤ n)
+    (h : sliceIndices a b c n = .ok idx) (k : Nat) (hk : k < idx.length) :
+    ∃ off' samp', axisGet (.linear t off samp) idx (some (a.getD 0, c.getD 1)) = .linear t off' samp' ∧
+      coord off' samp' k = coord off samp (idx.getD k 0) := by
+  refine ⟨off + (a.getD 0) * samp, samp * (c.getD 1), by simp [axisGet], ?_⟩
+  have hi := sliceIndices_getD a b c n idx hstep h k hk
+  rw [sliceStart_of_inrange a c n hstep h0 hn] at hi
+  simp only [coord]
+  have : ((idx.getD k 0 : Nat) : Rat) = ((a.getD 0 + k * c.getD 1 : Int) : Rat) := by
+    rw [← hi]; simp
+  rw [this]
+  push_cast
+  ring
+
+/-! ### recorded defects of the current tree (negation witnesses; each states the recorded defect on the model and becomes
+unprovable when the model is flipped to a repaired behaviour) -/
+
+/-- RECORDED: a slice with a negative start (or a negative step) of a linear ensemble axis is a plain copy of the axis metadata:
+`obj[-2:]` on a 3-item axis with coordinates 0, 1, 2 selects the items 1, 2 but the result axis still starts at 0. -/
+theorem negative_start_slice_linear_axis_copied_counterexample :
+    ¬ (∀ (o o' : Obj) (a b c : Option Int) (t : Int) (off samp off' samp' : Rat) (idx : List Nat),
+        o.ens = [.linear t off samp] → getItems o [.slice a b c] false = .ok o' → o'.ens = [.linear t off' samp'] →
+        sliceIndices a b c (o.shape.headD 0) = .ok idx →
+        ∀ k, k < idx.length → coord off' samp' k = coord off samp (idx.getD k 0)) := by
+  intro h
+  have := h ⟨[.linear 7 0 1], 0, [3], [0, 1, 2], []⟩ ⟨[.linear 7 0 1], 0, [2], [1, 2], []⟩ (some (-2)) none none 7 0 1 0 1 [1, 2]
+    rfl (by decide) rfl (by decide) 0 (by decide)
+  revert this
+  simp [coord]
+
+/-- RECORDED: an index list on a linear ensemble axis is a plain copy of the axis metadata as well: `obj[[2, 0]]` selects the
+items with coordinates 2, 0 but the result axis says 0, 1. -/
+theorem index_list_linear_axis_copied_counterexample :
+    ¬ (∀ (o o' : Obj) (l : List Int) (t : Int) (off samp off' samp' : Rat) (idx : List Nat),
+        o.ens = [.linear t off samp] → getItems o [.list l] false = .ok o' → o'.ens = [.linear t off' samp'] →
+        listIndices l (o.shape.headD 0) = .ok idx →
+        ∀ k, k < idx.length → coord off' samp' k = coord off samp (idx.getD k 0)) := by
+  intro h
+  have := h ⟨[.linear 7 0 1], 0, [3], [0, 1, 2], []⟩ ⟨[.linear 7 0 1], 0, [2], [2, 0], []⟩ [2, 0] 7 0 1 0 1 [2, 0]
+    rfl (by decide) rfl (by decide) 0 (by decide)
+  revert this
+  simp [coord]
 
 /-! ### non-vacuity -/
 example : getItems ⟨[.ordinal 1 [10, 20, 30], .other 5], 1, [3, 2, 2], (List.range 12).map Int.ofNat, []⟩
